@@ -1,0 +1,75 @@
+//go:build verif
+
+// Ownership view of a protocol core for the external verification harness (/verif, property C15,
+// component kcpown): which pool buffer backs the data of every queued segment.
+
+package kcp
+
+import "unsafe"
+
+// VerifPoolID returns the sanitizer's canonical id (see VerifPoolEvent.ID) of the pool buffer that
+// backs buf: -1 if buf is nil, -2 if the sanitizer does not know the backing array (not a pool
+// buffer), -3 if it is known only from before the last VerifPoolReset.
+func VerifPoolID(buf []byte) int {
+	if buf == nil {
+		return -1
+	}
+	if cap(buf) == 0 {
+		return -2
+	}
+	key := uintptr(unsafe.Pointer(unsafe.SliceData(buf[:1])))
+	verifPool.mu.Lock()
+	defer verifPool.mu.Unlock()
+	b := verifPool.bufs[key]
+	if b == nil {
+		return -2
+	}
+	if b.id < 0 {
+		return -3
+	}
+	return b.id
+}
+
+// VerifKCPBufIDs returns VerifPoolID(seg.data) for every segment of the four queues, in queue
+// order (rcv_buf in heap-array order, with the sequence numbers so that the caller can sort).
+func VerifKCPBufIDs(k *KCP) (sndQueue, rcvQueue, sndBuf, rcvBuf []int, rcvBufSn []uint32) {
+	for s := range k.snd_queue.ForEach {
+		sndQueue = append(sndQueue, VerifPoolID(s.data))
+	}
+	for s := range k.rcv_queue.ForEach {
+		rcvQueue = append(rcvQueue, VerifPoolID(s.data))
+	}
+	for s := range k.snd_buf.ForEach {
+		sndBuf = append(sndBuf, VerifPoolID(s.data))
+	}
+	for i := range k.rcv_buf.segments {
+		rcvBuf = append(rcvBuf, VerifPoolID(k.rcv_buf.segments[i].data))
+		rcvBufSn = append(rcvBufSn, k.rcv_buf.segments[i].sn)
+	}
+	return
+}
+
+// VerifKCPUseAll tells the sanitizer that every queued segment's data is (still) in use: a segment
+// that holds a buffer which is already in the pool is reported as pool-use-after-put.  Returns the
+// number of segments holding a buffer.
+func VerifKCPUseAll(k *KCP) (held int) {
+	use := func(s *segment) {
+		if s.data != nil {
+			held++
+			VerifPoolUse(s.data[:cap(s.data)])
+		}
+	}
+	for s := range k.snd_queue.ForEach {
+		use(s)
+	}
+	for s := range k.rcv_queue.ForEach {
+		use(s)
+	}
+	for s := range k.snd_buf.ForEach {
+		use(s)
+	}
+	for i := range k.rcv_buf.segments {
+		use(&k.rcv_buf.segments[i])
+	}
+	return
+}
